@@ -1,23 +1,161 @@
 package main
 
 import (
+	"flag"
 	"fmt"
 	"os"
+	"sort"
+	"strings"
 
-	"golang.org/x/tools/go/packages"
 	"golang.org/x/tools/go/ssa"
-	"golang.org/x/tools/go/ssa/ssautil"
 )
 
 func main() {
-	cfg := &packages.Config{Mode: packages.LoadSyntax, Dir: "/repo", BuildFlags: []string{"-tags=verif"}}
-	pkgs, err := packages.Load(cfg, os.Args[1:]...)
-	if err != nil {
-		panic(err)
+	if len(os.Args) < 2 {
+		fmt.Fprintln(os.Stderr, "usage: gocv <dump|verify|check|lemmas> ...")
+		os.Exit(2)
 	}
-	prog, spkgs := ssautil.Packages(pkgs, ssa.InstantiateGenerics)
-	prog.Build()
-	for _, p := range spkgs {
-		fmt.Println(p.Pkg.Path(), len(p.Members))
+	switch os.Args[1] {
+	case "dump":
+		cmdDump(os.Args[2:])
+	case "verify":
+		cmdVerify(os.Args[2:])
+	case "check":
+		cmdCheck(os.Args[2:])
+	default:
+		fmt.Fprintln(os.Stderr, "unknown command", os.Args[1])
+		os.Exit(2)
 	}
+}
+
+func envOr(k, d string) string {
+	if v := os.Getenv(k); v != "" {
+		return v
+	}
+	return d
+}
+
+func cmdDump(args []string) {
+	fs := flag.NewFlagSet("dump", flag.ExitOnError)
+	pkgs := fs.String("pkgs", "", "comma separated package patterns")
+	fs.Parse(args)
+	e := NewEngine(envOr("VERIF_REPO", "/repo"), envOr("VERIF_DIR", "/verif"))
+	if err := e.Load(strings.Split(*pkgs, ",")); err != nil {
+		fmt.Fprintln(os.Stderr, "load:", err)
+		os.Exit(2)
+	}
+	for _, key := range fs.Args() {
+		found := false
+		for fn := range e.allFuncs {
+			for _, n := range funcNames(fn) {
+				if n == key {
+					fn.WriteTo(os.Stdout)
+					found = true
+					for _, a := range fn.AnonFuncs {
+						a.WriteTo(os.Stdout)
+					}
+					break
+				}
+			}
+		}
+		if !found {
+			fmt.Println("not found:", key)
+		}
+	}
+}
+
+func cmdVerify(args []string) {
+	fs := flag.NewFlagSet("verify", flag.ExitOnError)
+	pkgs := fs.String("pkgs", "", "comma separated package patterns")
+	prelude := fs.String("prelude", "", "comma separated SMT prelude files")
+	timeout := fs.Int("timeout", 10, "solver timeout (s)")
+	out := fs.String("out", "/verif/out/dev", "output dir")
+	verbose := fs.Bool("v", false, "verbose")
+	fs.Parse(args)
+	e := NewEngine(envOr("VERIF_REPO", "/repo"), envOr("VERIF_DIR", "/verif"))
+	if err := e.Load(strings.Split(*pkgs, ",")); err != nil {
+		fmt.Fprintln(os.Stderr, "load:", err)
+		os.Exit(2)
+	}
+	pre := ""
+	if *prelude != "" {
+		for _, f := range strings.Split(*prelude, ",") {
+			b, err := os.ReadFile(f)
+			if err != nil {
+				fmt.Fprintln(os.Stderr, err)
+				os.Exit(2)
+			}
+			pl, err := BuildPrelude(string(b))
+			if err != nil {
+				fmt.Fprintln(os.Stderr, f, err)
+				os.Exit(2)
+			}
+			pre += pl.VCText + "\n"
+		}
+	}
+	var gens []*Gen
+	keys := fs.Args()
+	if len(keys) == 0 {
+		for k, c := range e.contracts {
+			if !c.Trusted {
+				keys = append(keys, k)
+			}
+		}
+		sort.Strings(keys)
+	}
+	for _, key := range keys {
+		var fn *ssa.Function
+		var con *Contract
+		if c, ok := e.contracts[key]; ok {
+			con = c
+		} else {
+			// allow short keys
+			for k, c := range e.contracts {
+				if strings.HasSuffix(k, "."+key) || strings.HasSuffix(k, key) {
+					con = c
+				}
+			}
+		}
+		var err error
+		if con != nil {
+			fn, err = e.FindFunc(con)
+		} else {
+			fn, err = e.findFuncByKey(key)
+		}
+		if err != nil {
+			fmt.Println("ERROR", err)
+			continue
+		}
+		g, err := e.VerifyFunc(fn, con)
+		if err != nil {
+			fmt.Println("ERROR", err)
+			continue
+		}
+		gens = append(gens, g)
+	}
+	solveAll(gens, pre, *out, *timeout, 12)
+	bad := 0
+	for _, g := range gens {
+		fmt.Printf("== %s: %d obligations\n", g.fnName, len(g.obls))
+		for _, o := range g.obls {
+			ok := o.Result.Status == "unsat"
+			if o.Must == "sat" {
+				ok = o.Result.Status != "unsat" && o.Result.Status != "error"
+			}
+			mark := "ok  "
+			if !ok {
+				mark = "FAIL"
+				bad++
+			}
+			if !ok || *verbose {
+				fmt.Printf("  %s %-60s %-8s %-6s %.2fs  %s:%d  %s\n", mark, o.Name, o.Result.Status, o.Result.Solver, o.Result.Time, shortFile(o.Pos.Filename), o.Pos.Line, o.Src)
+			}
+		}
+		for _, a := range g.abstracted {
+			if *verbose {
+				fmt.Println("  abstracted:", a)
+			}
+		}
+	}
+	fmt.Printf("failed: %d\n", bad)
 }
